@@ -29,7 +29,7 @@ Overflows(exact, w, sgn) == exact # Ext(Trunc(exact, w), Len(exact), sgn)
 MemBits(o, bytes) == BitsOfBytes(bytes)
 Endian(o) == IF o.bo = "native" THEN "le" ELSE o.bo            \* the observed machine is little endian (host row, checked there)
 (* the bytes of memory that a w-bit access at offset n touches, as a value *)
-ValueAt(mem, n, nbytes, bo) == LET raw == BitsOfBytes(Ev([j \in 1..nbytes |-> mem[n + j]])) IN IF bo = "be" THEN ReverseBytes(raw) ELSE raw
+ValueAt(mem, n, nbytes, bo) == LET raw == BitsOfBytes(Tab([j \in 1..nbytes |-> mem[n + j]])) IN IF bo = "be" THEN ReverseBytes(raw) ELSE raw
 
 IsSortedAsc(s) == \A i \in 1..(Len(s) - 1) : s[i] <= s[i + 1]
 IsSortedDesc(s) == \A i \in 1..(Len(s) - 1) : s[i] >= s[i + 1]
@@ -65,7 +65,7 @@ SupVerdict(o) ==
     (* "Returns x & -x - extracts the lowest set isolated bit (like BLSI instruction)." *)
     [] f = "blsi" -> IF RV(o) = (IF IsZero(A(o)) THEN Zeros(w) ELSE Pow2(Ctz(A(o)), w)) THEN "" ELSE "blsi"
     (* "Fills all trailing bits right of the given value from the first most significant bit set." *)
-    [] f = "fill_trailing_bits" -> IF RV(o) = Ev([k \in 1..w |-> IF \E j \in k..w : A(o)[j] = 1 THEN 1 ELSE 0]) THEN "" ELSE "fill_trailing_bits"
+    [] f = "fill_trailing_bits" -> IF RV(o) = Tab([k \in 1..w |-> IF \E j \in k..w : A(o)[j] = 1 THEN 1 ELSE 0]) THEN "" ELSE "fill_trailing_bits"
     [] f = "is_power_of_2" -> IF o.rb = (Popcnt(A(o)) = 1) THEN "" ELSE "is_power_of_2"          \* "only one bit is set"
     [] f = "is_zero_or_power_of_2" -> IF o.rb = (Popcnt(A(o)) <= 1) THEN "" ELSE "is_zero_or_power_of_2"
     (* "Tests whether x is a power of two up to n." *)
@@ -105,7 +105,7 @@ SupVerdict(o) ==
     (* alignment to 2^n: is_aligned = multiple of the alignment; align_up / align_down = nearest multiple above / below (modulo 2^w);   *)
     (* align_up_diff: "zero or a positive difference between base and base when aligned to alignment"                                   *)
     [] f = "align" -> LET x == A(o) n == o.n
-                          down == Ev([k \in 1..w |-> IF k <= n THEN 0 ELSE x[k]])
+                          down == Tab([k \in 1..w |-> IF k <= n THEN 0 ELSE x[k]])
                           aligned == \A k \in 1..n : x[k] = 0
                           up == IF aligned THEN x ELSE Add(down, Pow2(n, w))
                       IN IF n >= w THEN "harness" ELSE IF o.rb # aligned THEN "is_aligned" ELSE IF RV(o) # up THEN "align_up"
@@ -136,7 +136,7 @@ SupVerdict(o) ==
                         ELSE IF o.nlen # MinOf({o.n} \cup {j - 1 : j \in {i \in 1..Len(o.sa) : o.sa[i] = 0}} \cup {Len(o.sa)}) THEN "str_nlen" ELSE ""
     [] f = "packed" -> IF Cardinality({j \in 1..Len(o.p) : o.p[j] = 0}) < o.n THEN "harness" ELSE IF o.rn = PackedOffset(o.p, o.n, 0) THEN "" ELSE "find_packed_string"
     (* Support::Array<uint32_t, 4>: combine<Op> is element-wise, aggregate<Op>(initial) folds from the initial value *)
-    [] f = "array" -> LET X == Ev([i \in 1..4 |-> BitsOfLimbs(o.x[i])]) Y == Ev([i \in 1..4 |-> BitsOfLimbs(o.y[i])]) R == Ev([i \in 1..4 |-> BitsOfLimbs(o.r[i])])
+    [] f = "array" -> LET X == Tab([i \in 1..4 |-> BitsOfLimbs(o.x[i])]) Y == Tab([i \in 1..4 |-> BitsOfLimbs(o.y[i])]) R == Tab([i \in 1..4 |-> BitsOfLimbs(o.r[i])])
                           nn == OfNat(o.n, 32) op == o.op
                           expR == CASE op = "fill" -> [i \in 1..4 |-> nn] [] op \in {"copy", "swap"} -> Y [] OTHER -> [i \in 1..4 |-> ArrOp(op, X[i], Y[i])]
                           expAgg == CASE op = "fill" -> nn [] op = "copy" -> Y[4] [] op = "swap" -> X[1] [] OTHER -> FoldArr(op, nn, X, 1)
